@@ -112,9 +112,24 @@ def gen_lf_init(wd):
         "    FrameHeader *frm_hdr = &dec_handle->frame_header;\n" + blk + "}\n")
 
 
+def gen_lf_wait(wd):
+    src = slicer.read(DPR)
+    f = slicer.function(src, "dec_av1_loop_filter_frame_mt")
+    a = f.find("            int32_t start_lf[")
+    m = re.search(r"            while \(([^{]*?)\) \{\n(.*?)\n            \}\n", f[a:], re.S) if a >= 0 else None
+    if a < 0 or not m:
+        raise RuntimeError("reconstruction wait block not found in dec_av1_loop_filter_frame_mt")
+    decls = f[a:a + m.start()]
+    decls = re.sub(r"#if MT_WAIT_PROFILE.*?#endif\n", "", decls, flags=re.S)
+    open(os.path.join(wd, "c09_lf_wait.inc"), "w").write(
+        "/* sliced verbatim from dec_av1_loop_filter_frame_mt (EbDecProcess.c): declarations, one evaluation of the spin body, the spin condition */\n"
+        "static int lf_stage_wait_over(int32_t sb_row, TilesInfo *tiles_info, DecMtFrameData *dec_mt_frame_data) {\n" + decls + "            {\n" + m.group(2) + "\n            }\n"
+        "    return !(" + m.group(1) + ");\n}\n")
+
+
 META = {
     "engine": "E5 symbolic scheduler",
-    "level_text": "SIX mechanisms of the property: the once-per-frame loop-filter table initialisation (no thread filters before the tables are complete), the per-superblock-row saving of loop-restoration stripe context (every stripe of the frame covered), and the row-to-row synchronisation of the multi-threaded reconstruction stage (decode_tile_row), of the loop-filter stage (dec_loop_filter_row), of the CDEF stage (svt_cdef_sb_row_mt) and of the loop-restoration stage (dec_av1_loop_restoration_filter_row). Their synchronisation statements (sliced verbatim; the spin-wait is turned into a non-blocking test) run under every schedule of one worker per superblock row, for pictures 1..4 superblocks wide and 3 rows high: a superblock is filtered only after the superblocks above and above-right were filtered, and a row whose upper row is complete is never blocked.",
+    "level_text": "SEVEN mechanisms of the property: the hand-off from reconstruction to the loop-filter stage (every row the stage reads is complete when its wait ends), the once-per-frame loop-filter table initialisation (no thread filters before the tables are complete), the per-superblock-row saving of loop-restoration stripe context (every stripe of the frame covered), and the row-to-row synchronisation of the multi-threaded reconstruction stage (decode_tile_row), of the loop-filter stage (dec_loop_filter_row), of the CDEF stage (svt_cdef_sb_row_mt) and of the loop-restoration stage (dec_av1_loop_restoration_filter_row). Their synchronisation statements (sliced verbatim; the spin-wait is turned into a non-blocking test) run under every schedule of one worker per superblock row, for pictures 1..4 superblocks wide and 3 rows high: a superblock is filtered only after the superblocks above and above-right were filtered, and a row whose upper row is complete is never blocked.",
     "level_note": "Everything else the property states is NOT decided: tile parse / loop-filter / loop-restoration hand-offs, stage-to-stage hand-offs, data races in general, hangs of the whole pipeline, equality with single-thread output (the decoder's job bodies cannot be executed symbolically; see DESIGN.md). Teardown after multi-threaded decoding is decided under C15, the mode-info map bounds under C10.",
     "technique": "CBMC bounded symbolic execution with a symbolic row schedule over verbatim slices of the synchronisation statements",
     "assumptions": ["cdef_completed_in_row is zeroed at the start of the frame (memset in svt_av1_queue_cdef_jobs)", "one thread works on a row from left to right (get_sb_row_to_process hands out whole rows)"],
@@ -143,6 +158,10 @@ def queries(tier):
                   funcs=[DPR + ":dec_av1_loop_filter_frame_mt (frame-level table initialisation block, sliced)"],
                   bound="two threads; the second may run its whole block at any mutex operation of the first or while the tables are being built",
                   what="no thread leaves the initialisation block before the frame's loop-filter tables are complete")] + \
+           [Query(name="lf_stage_waits_for_all_rows_it_reads", harness="C09/lf_wait.c", gen=gen_lf_wait, unwind=20, timeout=600, flags=["--slice-formula"],
+                  funcs=[DPR + ":dec_av1_loop_filter_frame_mt (reconstruction wait block, sliced)"],
+                  bound="1..6 superblock rows, 1..3 tile columns, every state of the per-row reconstruction-complete map, every row R",
+                  what="the wait ends only when rows R-2..R+1 are completely reconstructed in every tile column")] + \
            [Query(name="lr_stripe_context_saved_for_every_stripe", harness="C09/lr_bdry.c", gen=gen_bdry, unwind=10, timeout=600, flags=["--slice-formula"],
                   funcs=[DPR + ":dec_save_lf_boundary_lines_sb_row"], bound="every even frame height 16..384, superblock 64 and 128, luma plane",
                   what="the per-superblock-row saver of the multi-threaded pipeline saves the deblocked above/below context of every restoration stripe of the frame")]
